@@ -214,7 +214,18 @@ func (g *graph) check(pkgids map[string]bool, all bool) []issue {
 		if o.refCount != in[id] {
 			add("refcount", "%s (%s): RefCount %d but %d persisted references (held by %v)", id, o.typ, o.refCount, in[id], holders[id])
 		}
-		if o.owner != "" {
+		if _, ownerExists := g.objs[o.owner]; o.owner != "" && !ownerExists {
+			// The recorded owner is not a persisted object (any more). One issue per object, so that
+			// the two listed manifestations of the stale-OwnerID defect (KNOWN_FINDINGS.jsonl) are
+			// told apart from every violation that involves an EXISTING owner, which stays strict below.
+			if o.escaped {
+				add("stale-owner-kept-on-escape", "%s (%s): escaped (RefCount %d) but still records owner %s, which is not a persisted object (any more); references held by %v", id, o.typ, o.refCount, o.owner, holders[id])
+			} else if o.refCount != 1 {
+				add("owner-with-refcount-not-1", "%s (%s): records owner %s (not a persisted object any more) with RefCount %d", id, o.typ, o.owner, o.refCount)
+			} else {
+				add("owner-no-longer-exists", "%s (%s): recorded owner %s is not a persisted object (any more); the reference is held by %v", id, o.typ, o.owner, holders[id])
+			}
+		} else if o.owner != "" {
 			if o.escaped {
 				add("escaped-with-owner", "%s (%s): escaped but still records owner %s", id, o.typ, o.owner)
 			}
@@ -228,11 +239,7 @@ func (g *graph) check(pkgids map[string]bool, all bool) []issue {
 				}
 			}
 			if !held {
-				if _, exists := g.objs[o.owner]; exists {
-					add("owner-does-not-hold-reference", "%s (%s): recorded owner %s exists but does not hold a reference to it (holders %v)", id, o.typ, o.owner, holders[id])
-				} else {
-					add("owner-no-longer-exists", "%s (%s): recorded owner %s is not a persisted object (any more); the reference is held by %v", id, o.typ, o.owner, holders[id])
-				}
+				add("owner-does-not-hold-reference", "%s (%s): recorded owner %s exists but does not hold a reference to it (holders %v)", id, o.typ, o.owner, holders[id])
 			}
 		} else if o.refCount == 1 && !o.escaped {
 			add("no-owner-recorded", "%s (%s): singly referenced, not escaped, but no owner recorded", id, o.typ)
